@@ -400,3 +400,96 @@ def z_build(raw, sid, ncode):
     steps += [{"op": "as_slices"}, {"op": "push_front"}, {"op": "pop_back"}, {"op": "as_slices"}]
     return {"id": sid, "ty": "z", "ncode": ncode, "n": nm, "tags": ["zst", ncode, raw['evs'][0]['op']], "steps": steps,
             "first_op": raw['evs'][0]['op'], "pred": {"start": start, "size": size}}
+
+
+# ------------------------------------------------------------------------------------------------
+# seeded random long histories at larger capacities (direction B only: the contract is the oracle)
+
+def random_history(rnd, n, sid, length, faults):
+    """a random client program over up to three buffers of capacity n and two views; steps that the borrow
+    rules forbid are skipped by the harness"""
+    steps = [{"op": "new", "h": 0}]
+    live = {0}
+    views = {}
+    idx = lambda: rnd.choice([0, 1, 2, rnd.randint(0, n + 1), n - 1 if n else 0, n, n + 1, 1073741824])
+    bound = lambda: rnd.choice([["u"], ["i", rnd.randint(0, n + 1)], ["e", rnd.randint(0, n + 1)], ["i", 0], ["e", 1073741824]])
+    for _ in range(length):
+        h = rnd.choice(sorted(live)) if live else 0
+        r = rnd.random()
+        st = None
+        if views and r < 0.25:
+            v = rnd.choice(sorted(views))
+            op = rnd.choice(["v_next", "v_next", "v_next_back", "v_len", "v_size_hint", "v_drop", "v_rest", "v_clone"] +
+                            (["v_forget"] if faults and views[v] == "drain" else []))
+            st = {"op": op, "v": v}
+            if op == "v_clone":
+                st["v2"] = 1 - v if (1 - v) not in views else v
+                if st["v2"] == v:
+                    st = {"op": "v_len", "v": v}
+                else:
+                    views[st["v2"]] = views[v]
+            if op in ("v_drop", "v_forget"):
+                views.pop(v, None)
+        elif r < 0.33 and len(views) < 2:
+            v = 0 if 0 not in views else 1
+            op = rnd.choice(["iter", "iter_mut", "range", "range_mut", "drain", "drain", "into_iter"])
+            st = {"op": op, "h": h, "v": v}
+            if op in ("range", "range_mut", "drain"):
+                st["bs"] = bound()
+                st["be"] = bound()
+            if op == "into_iter":
+                live.discard(h)
+            views[v] = op
+        elif r < 0.36 and len(live) < 3:
+            h2 = min({0, 1, 2} - live)
+            kind = rnd.choice(["new", "clone", "from_iter", "from_array", "default", "boxed"])
+            if kind == "clone" and live:
+                st = {"op": "clone", "h": h, "h2": h2}
+            elif kind in ("from_iter", "from_array"):
+                st = {"op": kind, "h": h2, "vals": [rnd.randint(0, 2) for _ in range(rnd.randint(0, min(2 * n + 1, 12)))]}
+            else:
+                st = {"op": kind if kind != "clone" else "new", "h": h2}
+            live.add(h2)
+        elif r < 0.39 and len(live) >= 2:
+            h2 = rnd.choice(sorted(live - {h}))
+            st = {"op": rnd.choice(["clone_from", "eq", "ne", "partial_cmp", "cmp", "lt", "ge", "hash"]), "h": h, "h2": h2}
+        elif r < 0.41 and len(live) >= 2:
+            st = {"op": "drop_buf", "h": h}
+            live.discard(h)
+        elif not live:
+            st = {"op": "new", "h": 0}
+            live.add(0)
+        else:
+            op = rnd.choice(["push_back", "push_back", "push_front", "try_push_back", "try_push_front", "pop_back", "pop_front",
+                             "remove", "swap", "swap_remove_back", "swap_remove_front", "truncate_back", "truncate_front", "clear",
+                             "fill", "fill_with", "fill_spare", "fill_spare_with", "extend", "extend_from_slice", "make_contiguous",
+                             "get", "nth_back", "index", "front_mut", "back", "as_slices", "as_mut_slices", "observe", "to_vec",
+                             "write_via", "eq_slice", "debug", "poison", "caller_drop"])
+            st = {"op": op, "h": h}
+            if op in ("push_back", "push_front", "try_push_back", "try_push_front", "fill", "fill_spare"):
+                st["val"] = rnd.randint(0, 2)
+            elif op in ("remove", "swap_remove_back", "swap_remove_front", "truncate_back", "truncate_front", "get", "nth_back", "index"):
+                st["i"] = idx()
+            elif op == "swap":
+                st["i"] = idx()
+                st["j"] = idx()
+            elif op in ("fill_with", "fill_spare_with", "extend", "extend_from_slice", "eq_slice"):
+                st["vals"] = [rnd.randint(0, 2) for _ in range(rnd.randint(0, min(2 * n + 1, 12)))] or ([1] if op.startswith("fill") else [])
+                if op == "eq_slice":
+                    st["acc"] = rnd.choice(SLICE_FORMS)
+            elif op == "write_via":
+                st["acc"] = rnd.choice(["get_mut", "nth_front_mut", "nth_back_mut", "front_mut", "back_mut", "index_mut", "iter_mut",
+                                        "iter_mut_rev", "range_mut", "as_mut_slices", "make_contiguous"])
+                st["i"] = rnd.randint(0, n + 1)
+                st["val"] = rnd.randint(3, 9)
+                st["bs"] = bound()
+                st["be"] = bound()
+            elif op == "debug":
+                st["acc"] = rnd.choice(DEBUG_FORMS)
+            elif op == "poison":
+                st["acc"] = rnd.choice(["00", "ff", "5a", "stale", "live"])
+        if faults and st and rnd.random() < 0.12 and st["op"] not in ("caller_drop", "poison", "observe", "v_forget"):
+            st["fault"] = {"k": rnd.choice(["drop", "drop", "clone", "gen", "iter", "cmp"]), "n": rnd.randint(1, 4)}
+        if st:
+            steps.append(st)
+    return {"id": sid, "n": n, "ty": "t", "tags": ["random", "faults" if faults else "nofaults"], "steps": steps, "first_op": "random"}
